@@ -127,7 +127,9 @@ fn witness_successor_and_roundtrip_along_games() {
             for _ply in 0..50 {
                 let fen = Fen::from(&board).fen;
                 let before = snapshot(&board);
-                for mv in board.generate_pseudo_legal_moves() {
+                let mut all_moves = board.generate_pseudo_legal_moves();
+                all_moves.extend(board.generate_pseudo_legal_non_quiescent_moves());    // the capture/promotion generator encodes moves too
+                for mv in all_moves {
                     let uci = mv.to_uci_string();
                     let captured_king = { let t = uci.as_bytes(); let (tf, tr) = ((t[2] - b'a') as usize, (b'8' - t[3]) as usize); fen.split(' ').next().unwrap().split('/').nth(tr).map(|row| { let mut f = 0usize; let mut c = '.'; for ch in row.chars() { if let Some(d) = ch.to_digit(10) { f += d as usize; } else { if f == tf { c = ch; } f += 1; } } c }).unwrap_or('.').to_ascii_lowercase() == 'k' };
                     if captured_king { continue; }
